@@ -321,7 +321,7 @@ func c19UnknownClass(st, base string) string {
 	return "nearly-a-known-name"
 }
 
-var c19SpecialNames = []string{"", ".", "a.b", "x.", ".y", "a..b", "a.b.c", "csv", "CSV", "Json", "html", "markdown", "MarkDown", "texttable", "TextTable", "texttable.foo", "TextTable.Bar.baz", "csv.special", "utf8-light.mine", "none.x", " ", "with space", "UTF8-LIGHT", "\u00fcn\u00ef", "-", "a/b", "\"q\"", "<b>"}
+var c19SpecialNames = []string{"caf\xe9", "\xff\xfe", "na\xefve.style", "ok\xc3", "", ".", "a.b", "x.", ".y", "a..b", "a.b.c", "csv", "CSV", "Json", "html", "markdown", "MarkDown", "texttable", "TextTable", "texttable.foo", "TextTable.Bar.baz", "csv.special", "utf8-light.mine", "none.x", " ", "with space", "UTF8-LIGHT", "\u00fcn\u00ef", "-", "a/b", "\"q\"", "<b>"}
 
 // c19Derived is a name that is nearly a known one: a sub-package name, a built-in decoration or a registered
 // name with characters added at either end (no dot) or taken away, perhaps in another letter case.  Names are
